@@ -5,7 +5,7 @@
    Follows the code as it is at /repo HEAD (after the fix: commits recorded in
    KNOWN_FINDINGS.txt). No proofs here. *)
 From Coq Require Import String List NArith ZArith Bool.
-From J5V.lib Require Import Outcome.
+From J5V.lib Require Import Outcome Strcase.
 From J5V.model Require Import RulesDecl.
 From J5V.gen Require Id62Gen.
 Import ListNotations.
@@ -87,8 +87,17 @@ Fixpoint lookup_from (env : enum_env) (opts : list str) (i : Z) (full : str) : o
               | None => if str_eqb (with_prefix env o) full then Some i else None
               end
   end.
+(* ... and the explicit zero option, if any, under its full name -> 0 (entered
+   first: a later option of the same name would overwrite it) *)
 Definition map_value (env : enum_env) (name : str) : option Z :=
-  lookup_from env (ee_options env) 1 (with_prefix env name).
+  match lookup_from env (ee_options env) 1 (with_prefix env name) with
+  | Some n => Some n
+  | None =>
+      match ee_zero env with
+      | Some z => if str_eqb (with_prefix env z) (with_prefix env name) then Some 0 else None
+      | None => None
+      end
+  end.
 Fixpoint map_values (env : enum_env) (names : list str) : outcome (list Z) :=
   match names with
   | [] => Ok []
@@ -174,7 +183,9 @@ Definition write_field (env : enum_env) (t : fty) : outcome fieldw :=
                   end)
                  (Some (XKey f)) lst
                  (match e with Some e => Some (key_ext e) | None => None end)))
-  | TFloat f64 l =>
+  | TFloat f64 rules l =>
+      if rules then Err "TODO: float rules not implemented"
+      else
       Ok (FW (if f64 then KdDouble else KdFloat) None (Some XFloat)
             (with_arm (if f64 then LDouble else LFloat) l) None)
   | TDate r l =>
@@ -182,20 +193,33 @@ Definition write_field (env : enum_env) (t : fty) : outcome fieldw :=
       Ok (FW KdDate None (match r with Some r => Some (XDate (Some r)) | None => None end) (with_arm LDate l) None)
   | TDecimal r l =>
       Ok (FW KdDecimal None (match r with Some r => Some (XDecimal (Some r)) | None => None end) (with_arm LDecimal l) None)
-  | TTimestamp l => Ok (FW KdTimestamp None (Some XTimestamp) (with_arm LTimestamp l) None)
+  | TTimestamp r l =>
+      (* "None Implemented": whatever the rules say, an empty TimestampRules *)
+      Ok (FW KdTimestamp (match r with Some _ => only_ty (CTimestamp NoUb NoLb) | None => None end)
+            (Some XTimestamp) (with_arm LTimestamp l) None)
   | TAny od ts l => Ok (FW KdAny None (Some (XAny od ts)) (with_arm LAny l) None)
-  | TObject fl => Ok (FW KdMsgObject None (Some (XObject fl)) None None)
-  | TOneof l => Ok (FW KdMsgOneof None (Some XOneof) (with_arm LOneof l) None)
+  (* object / oneof rules: an empty (buf.validate.field), nothing of the rules in it *)
+  | TObject fl r =>
+      Ok (FW KdMsgObject (match r with Some _ => Some (C false None) | None => None end) (Some (XObject fl)) None None)
+  | TOneof rules l =>
+      Ok (FW KdMsgOneof (if rules then Some (C false None) else None) (Some XOneof) (with_arm LOneof l) None)
   end.
 
 (* ---- buildProperty --------------------------------------------------------- *)
+(* repeated.items / map.values: the item's FieldConstraints as it is (also when it has no type) *)
+Definition item_tyc (v : option constraint) : option tyc :=
+  match v with
+  | Some c => Some (match c_ty c with Some t => t | None => CEmpty end)
+  | None => None
+  end.
+
 Definition wrap_array (r : option arr_rules) (sf : option str) (w : fieldw) : fieldw :=
   FW (fw_kind w)
      (if is_some (fw_val w) || is_some r
       then only_ty (CRep (match r with Some r => ar_min r | None => None end)
                          (match r with Some r => ar_max r | None => None end)
                          (match r with Some r => ar_uniq r | None => None end)
-                         (match fw_val w with Some c => c_ty c | None => None end))
+                         (item_tyc (fw_val w)))
       else None)
      (Some (XArray sf))        (* the item's (j5.ext.v1.field) is overwritten *)
      (fw_list w) (fw_key w).
@@ -205,7 +229,7 @@ Definition wrap_map (r : option map_rules) (w : fieldw) : fieldw :=
      (if is_some (fw_val w) || is_some r
       then only_ty (CMap (match r with Some r => mr_min r | None => None end)
                          (match r with Some r => mr_max r | None => None end)
-                         (match fw_val w with Some c => c_ty c | None => None end))
+                         (item_tyc (fw_val w)))
       else None)
      None None (fw_key w).
 
@@ -246,7 +270,7 @@ Definition write_prop (env : enum_env) (idx : N) (d : prop) : outcome fout :=
                                   | _, None => false
                                   end in
        if p_opt d && required then Err "cannot be both required and optional"
-       else Ok (FO (p_name d) (idx + 1)%N (fw_kind w)
+       else Ok (FO (p_name d) (to_snake (p_name d)) (idx + 1)%N (fw_kind w)   (* strcase.ToSnake(node.Schema.Name) *)
                    (match p_ty d with PSingle _ => false | _ => true end)
                    (* HasOptionalKeyword of the linked field: never true for a repeated field *)
                    (match p_ty d with PSingle _ => p_opt d | _ => false end)
